@@ -578,12 +578,16 @@ class Network(BaseModel):  # pylint: disable=too-many-public-methods
                         case ("narrow-wide", "wide"):
                             ni_dict["mgr_wide_port"] = prot
 
-            ni_dict["mgr_link"] = self.graph.get_edges_from(
-                ni_name, filters=[self.graph.is_link_edge]
-            )[0]
-            ni_dict["sbr_link"] = self.graph.get_edges_to(
-                ni_name, filters=[self.graph.is_link_edge]
-            )[0]
+            mgr_links = self.graph.get_edges_from(ni_name, filters=[self.graph.is_link_edge])
+            sbr_links = self.graph.get_edges_to(ni_name, filters=[self.graph.is_link_edge])
+            # A network interface has a single port towards the network
+            if len(mgr_links) != 1 or len(sbr_links) != 1:
+                raise ValueError(
+                    f"The endpoint of `{ni_name}` must be connected exactly once, "
+                    f"found {len(mgr_links)} connections"
+                )
+            ni_dict["mgr_link"] = mgr_links[0]
+            ni_dict["sbr_link"] = sbr_links[0]
             match self.network_type:
                 case "axi":
                     self.graph.set_node_obj(ni_name, AxiNI(**ni_dict))
